@@ -21,6 +21,8 @@ pub enum POp {
     UpdateConfig { who: usize, new_owner: Option<usize>, new_fees: Option<(u128, u128, u128)>, toggles: Option<(bool, bool, bool)> },
     Donate { i: bool, z: u128 },
     TransferLp { from: usize, to: usize, a: u128 },
+    /// ExecuteMsg::WithdrawLiquidity {} with `a` of DENOMS[denom] attached (token-factory LP entry point)
+    WithdrawDirect { who: usize, denom: usize, a: u128 },
 }
 
 fn optz(o: &Option<u128>) -> String { match o { Some(v) => format!("(Some {})", v), None => "None".into() } }
@@ -39,12 +41,13 @@ impl POp {
                 match toggles { Some(t) => format!("(Some ({}, {}, {}))", coqbool(t.0), coqbool(t.1), coqbool(t.2)), None => "None".into() }),
             POp::Donate { i, z } => format!("Donate {} {}", coqbool(*i), z),
             POp::TransferLp { from, to, a } => format!("TransferLP {}%nat {}%nat {}", from, to, a),
+            POp::WithdrawDirect { who, denom, a } => format!("WithdrawDirect {}%nat {}%nat {}", who, denom, a),
         }
     }
     pub fn json(&self) -> serde_json::Value { json!(format!("{:?}", self)) }
     pub fn kind(&self) -> &'static str {
         match self { POp::Provide { .. } => "provide", POp::Withdraw { .. } => "withdraw", POp::Swap { .. } => "swap", POp::Collect { .. } => "collect",
-                     POp::UpdateConfig { .. } => "update_config", POp::Donate { .. } => "donate", POp::TransferLp { .. } => "transfer_lp" }
+                     POp::UpdateConfig { .. } => "update_config", POp::Donate { .. } => "donate", POp::TransferLp { .. } => "transfer_lp", POp::WithdrawDirect { .. } => "withdraw_direct" }
     }
 }
 
@@ -58,7 +61,8 @@ impl PairCase {
     }
     pub fn json(&self) -> serde_json::Value {
         json!({"asset_kinds_cw20": self.kinds, "fees_protocol_swap_burn": [self.fees.0.to_string(), self.fees.1.to_string(), self.fees.2.to_string()],
-               "accounts": ACCTS, "ops": self.ops.iter().map(|o| format!("{:?}", o)).collect::<Vec<_>>()})
+               "accounts": ACCTS, "ops": self.ops.iter().map(|o| format!("{:?}", o)).collect::<Vec<_>>(),
+               "machine": self.machine()})
     }
 }
 
@@ -128,6 +132,11 @@ pub fn exec(w: &mut PairWorld, op: &POp) -> Outcome<AppResponse> {
             let lp = w.lp.clone(); let t = name(*to, w);
             cw_multi_test::Executor::execute_contract(&mut w.app, cosmwasm_std::Addr::unchecked(ACCTS[*from]), lp,
                 &cw20::Cw20ExecuteMsg::Transfer { recipient: t, amount: Uint128::new(*a) }, &[])
+        }
+        POp::WithdrawDirect { who, denom, a } => {
+            let pair = w.pair.clone();
+            let funds = if *a > 0 { vec![cosmwasm_std::coin(*a, DENOMS[*denom % 4])] } else { vec![] };
+            cw_multi_test::Executor::execute_contract(&mut w.app, cosmwasm_std::Addr::unchecked(ACCTS[*who]), pair, &pair::ExecuteMsg::WithdrawLiquidity {}, &funds)
         }
     }));
     match r {
@@ -271,11 +280,19 @@ pub fn run_case(out: &mut Out, prop: &str, case: &PairCase) -> Option<CaseResult
                         match belief {
                             None => { if g + sp > 0 && u512(sp) * u512(DEC) / u512(g + sp) > u512(s_eff) { out.monitor_fail("C15", "swap succeeded with spread/(return+spread) above the max spread", replay(k, "max spread")); } }
                             Some(bp) => {
-                                // gross return >= (offer/p)*(1-s) up to one base unit:  (g+1)*p*1e18 >= offer*(1e18-s)*1e18/1e18 ...
-                                // exact rational: g + 1 >= offer*1e18/p * (1e18 - s)/1e18
-                                let lhs = (u512(g) + u512(1)) * u512(*bp) * u512(DEC);
-                                let rhs = u512(*x) * u512(DEC) * u512(DEC - s_eff);
-                                if lhs < rhs { out.monitor_fail("C15", "swap succeeded with gross return below (offer/belief_price)*(1-s) by more than one unit", replay(k, "belief price")); }
+                                if *bp > 0 {
+                                    // er as documented: floor(offer * floor(10^36/p) / 10^18); accepted means g >= er or
+                                    // floor((er-g)*1e18/er) <= s  <=>  (er-g)*1e18 < (s+1)*er
+                                    let inv = u512(DEC) * u512(DEC) / u512(*bp);
+                                    let er = u512(*x) * inv / u512(DEC);
+                                    if u512(g) < er && (er - u512(g)) * u512(DEC) >= (u512(s_eff) + u512(1)) * er {
+                                        out.monitor_fail("C15", "swap succeeded although (expected - gross)/expected exceeds the max spread", replay(k, "belief price"));
+                                    }
+                                    // exact quotient with the proved truncation slack: (g+1)*1e18*p + (er+offer)*p > offer*1e18*(1e18-s)
+                                    let lhs = (u512(g) + u512(1)) * u512(DEC) * u512(*bp) + (er + u512(*x)) * u512(*bp);
+                                    let rhs = u512(*x) * u512(DEC) * u512(DEC - s_eff);
+                                    if u512(g) < er && lhs <= rhs { out.monitor_fail("C15", "swap succeeded with gross return below (offer/belief_price)*(1-s) beyond the truncation slack", replay(k, "belief price exact")); }
+                                }
                             }
                         }
                     }
@@ -355,7 +372,8 @@ pub fn gen_case(rng: &mut Rng, len: usize, bias: &Bias) -> PairCase {
             let base = if dir { r[1] } else { r[0] };
             let x = if bias.tiny_swaps { match rng.below(4) { 0 => 1 + rng.below(50) as u128, 1 => base / 5000 + 1, _ => base / 200 + rng.below(1000) as u128 } }
                     else { match rng.below(8) { 0 => magnitude(rng, cap), 1 => 1, 2 => base, 3 => base / 1000 + 1, 4 => 0, _ => base / (3 + rng.below(200) as u128) + rng.below(7) as u128 } };
-            let max_spread = if bias.spreads || rng.chance(1, 3) { Some(*rng.pick(&[0u128, 1, DEC / 1000, DEC / 100, DEC / 20, DEC / 2, DEC / 2 + 1, DEC, 2 * DEC])) } else { if rng.chance(1, 2) { Some(DEC / 2) } else { None } };
+            let max_spread = if bias.spreads { if rng.chance(1, 4) { None } else { Some(*rng.pick(&[0u128, 1, DEC / 1000, DEC / 100, DEC / 20, DEC / 2, DEC / 2 + 1, DEC, 2 * DEC])) } }
+                             else if rng.chance(1, 3) { Some(*rng.pick(&[0u128, 1, DEC / 1000, DEC / 100, DEC / 20, DEC / 2, DEC / 2 + 1, DEC, 2 * DEC])) } else { if rng.chance(1, 2) { Some(DEC / 2) } else { None } };
             let belief = if (bias.spreads && rng.chance(1, 2)) || rng.chance(1, 8) {
                 // around the pool price op/ask (belief price = offer per ask)
                 let (o, a) = if dir { (r[1], r[0]) } else { (r[0], r[1]) };
@@ -372,6 +390,7 @@ pub fn gen_case(rng: &mut Rng, len: usize, bias: &Bias) -> PairCase {
             let toggles = if bias.toggles || rng.chance(1, 4) { Some((rng.chance(3, 4), rng.chance(3, 4), rng.chance(3, 4))) } else { None };
             POp::UpdateConfig { who: sender, new_owner, new_fees, toggles }
         } else if choice < 97 { POp::Donate { i: rng.chance(1, 2), z: magnitude(rng, 90) }
+        } else if choice < 98 { POp::WithdrawDirect { who: 1 + rng.below(4) as usize, denom: rng.below(4) as usize, a: *rng.pick(&[0u128, 1, 500, 1000, 54772]) }
         } else { let from = 1 + rng.below(5) as usize; POp::TransferLp { from, to: rng.below(6) as usize, a: rng.below128(lp[from.min(5)] + 2) } };
         // deposit immediately followed by withdrawing the minted amount is generated by the executor feedback below
         // coarse tracking (exact values come from the run; this only keeps the stream mostly valid)
@@ -421,4 +440,110 @@ pub fn add_deposit_withdraw_pairs(rng: &mut Rng, case: &mut PairCase) {
         }
     }
     case.ops = new_ops;
+}
+
+/// does the property's monitor fail on this case?
+pub fn case_fails(prop: &str, case: &PairCase, scratch: &str) -> Option<usize> {
+    let mut tmp = Out::new(scratch);
+    run_case(&mut tmp, prop, case)?;
+    tmp.monitor_failures.first().map(|f| f["replay"]["failing_op_index"].as_u64().unwrap_or(0) as usize)
+}
+
+/// delta-debugging over operations: cut after the failing op, then drop every op whose removal keeps the failure
+pub fn shrink_case(prop: &str, case: &PairCase, scratch: &str) -> PairCase {
+    let mut cur = case.clone();
+    if let Some(k) = case_fails(prop, &cur, scratch) { cur.ops.truncate(k + 1); } else { return cur; }
+    let mut i = cur.ops.len();
+    while i > 0 {
+        i -= 1;
+        if cur.ops.len() <= 1 { break; }
+        let mut cand = cur.clone();
+        cand.ops.remove(i);
+        if case_fails(prop, &cand, scratch).is_some() { cur = cand; }
+    }
+    cur
+}
+
+/// `--replay FILE`: re-run the recorded case with the property's monitors and report
+pub fn replay_file(prop: &str, path: &str, scratch: &str) -> i32 {
+    let txt = match std::fs::read_to_string(path) { Ok(t) => t, Err(e) => { eprintln!("cannot read {path}: {e}"); return 2; } };
+    let v: serde_json::Value = match serde_json::from_str(&txt) { Ok(v) => v, Err(e) => { eprintln!("bad json: {e}"); return 2; } };
+    let m = v.pointer("/failing_input/case/machine").or_else(|| v.pointer("/case/machine")).or_else(|| v.pointer("/disagreements/0/replay/machine"));
+    let case: PairCase = match m.and_then(PairCase::from_machine) { Some(c) => c, None => { eprintln!("no pair-history case in {path}"); return 2; } };
+    let mut tmp = Out::new(scratch);
+    let r = run_case(&mut tmp, prop, &case);
+    println!("replayed {} operations on the real pair contract; observation length {}", case.ops.len(), r.map(|r| r.obs.len()).unwrap_or(0));
+    if tmp.monitor_failures.is_empty() { println!("property {prop} holds on this history"); 0 }
+    else { for f in &tmp.monitor_failures { println!("FAILS: {} at op {}", f["what"], f["replay"]["failing_op_index"]); } 1 }
+}
+
+// ---- machine-readable form (u128 as strings) ----
+fn os(o: &Option<u128>) -> serde_json::Value { match o { Some(v) => json!(v.to_string()), None => serde_json::Value::Null } }
+fn ou(o: &Option<usize>) -> serde_json::Value { match o { Some(v) => json!(v), None => serde_json::Value::Null } }
+fn ps(v: &serde_json::Value) -> Option<u128> { v.as_str()?.parse().ok() }
+fn pos(v: &serde_json::Value) -> Option<Option<u128>> { if v.is_null() { Some(None) } else { Some(Some(ps(v)?)) } }
+fn pou(v: &serde_json::Value) -> Option<Option<usize>> { if v.is_null() { Some(None) } else { Some(Some(v.as_u64()? as usize)) } }
+impl PairCase {
+    pub fn machine(&self) -> serde_json::Value {
+        let ops: Vec<serde_json::Value> = self.ops.iter().map(|o| match o {
+            POp::Provide { who, d0, d1, tol, receiver } => json!(["provide", who, d0.to_string(), d1.to_string(), os(tol), ou(receiver)]),
+            POp::Withdraw { who, a } => json!(["withdraw", who, a.to_string()]),
+            POp::Swap { who, dir, x, belief, max_spread, to } => json!(["swap", who, dir, x.to_string(), os(belief), os(max_spread), ou(to)]),
+            POp::Collect { who } => json!(["collect", who]),
+            POp::UpdateConfig { who, new_owner, new_fees, toggles } => json!(["update_config", who, ou(new_owner),
+                match new_fees { Some(f) => json!([f.0.to_string(), f.1.to_string(), f.2.to_string()]), None => serde_json::Value::Null },
+                match toggles { Some(t) => json!([t.0, t.1, t.2]), None => serde_json::Value::Null }]),
+            POp::Donate { i, z } => json!(["donate", i, z.to_string()]),
+            POp::TransferLp { from, to, a } => json!(["transfer_lp", from, to, a.to_string()]),
+            POp::WithdrawDirect { who, denom, a } => json!(["withdraw_direct", who, denom, a.to_string()]),
+        }).collect();
+        json!({"kinds": self.kinds, "fees": [self.fees.0.to_string(), self.fees.1.to_string(), self.fees.2.to_string()], "ops": ops})
+    }
+    pub fn from_machine(v: &serde_json::Value) -> Option<PairCase> {
+        let kinds = [v["kinds"][0].as_bool()?, v["kinds"][1].as_bool()?];
+        let fees = (ps(&v["fees"][0])?, ps(&v["fees"][1])?, ps(&v["fees"][2])?);
+        let mut ops = vec![];
+        for o in v["ops"].as_array()? {
+            let u = |i: usize| -> Option<usize> { Some(o[i].as_u64()? as usize) };
+            ops.push(match o[0].as_str()? {
+                "provide" => POp::Provide { who: u(1)?, d0: ps(&o[2])?, d1: ps(&o[3])?, tol: pos(&o[4])?, receiver: pou(&o[5])? },
+                "withdraw" => POp::Withdraw { who: u(1)?, a: ps(&o[2])? },
+                "swap" => POp::Swap { who: u(1)?, dir: o[2].as_bool()?, x: ps(&o[3])?, belief: pos(&o[4])?, max_spread: pos(&o[5])?, to: pou(&o[6])? },
+                "collect" => POp::Collect { who: u(1)? },
+                "update_config" => POp::UpdateConfig { who: u(1)?, new_owner: pou(&o[2])?,
+                    new_fees: if o[3].is_null() { None } else { Some((ps(&o[3][0])?, ps(&o[3][1])?, ps(&o[3][2])?)) },
+                    toggles: if o[4].is_null() { None } else { Some((o[4][0].as_bool()?, o[4][1].as_bool()?, o[4][2].as_bool()?)) } },
+                "donate" => POp::Donate { i: o[1].as_bool()?, z: ps(&o[2])? },
+                "transfer_lp" => POp::TransferLp { from: u(1)?, to: u(2)?, a: ps(&o[3])? },
+                "withdraw_direct" => POp::WithdrawDirect { who: u(1)?, denom: u(2)?, a: ps(&o[3])? },
+                _ => return None,
+            });
+        }
+        Some(PairCase { kinds, fees, ops })
+    }
+}
+
+/// hand-built histories that put the pending protocol fee exactly at, one below and one above the collection threshold
+pub fn threshold_corpus() -> Vec<PairCase> {
+    let mut v = vec![];
+    for (kinds, t) in [([false, false], 1000u128), ([false, true], 1000), ([true, false], 1001), ([false, false], 999), ([true, true], 1000), ([false, false], 1001)] {
+        for dir in [false, true] {
+            // pool 1e12/1e12, protocol fee 0.1 %: gross in [t*1000, t*1000+999] gives a protocol fee of exactly t
+            let x = t * 1000 + 500 + t; // gross = x - x^2/(1e12+x) ~ x - 1
+            let ms = Some(DEC / 2);
+            v.push(PairCase { kinds, fees: (DEC / 1000, 3 * DEC / 1000, DEC / 500), ops: vec![
+                POp::Provide { who: 1, d0: 1_000_000_000_000, d1: 1_000_000_000_000, tol: None, receiver: None },
+                POp::Swap { who: 2, dir, x, belief: None, max_spread: ms, to: None },
+                POp::Collect { who: 3 },
+                POp::Swap { who: 2, dir: !dir, x: 7 * x, belief: None, max_spread: ms, to: Some(3) },
+                POp::Collect { who: 4 },
+                POp::Swap { who: 1, dir, x: 1, belief: None, max_spread: ms, to: None },
+                POp::Collect { who: 2 },
+                POp::Withdraw { who: 1, a: 1_000_000 },
+                POp::WithdrawDirect { who: 4, denom: 3, a: 1000 },
+                POp::WithdrawDirect { who: 4, denom: 0, a: 500 },
+            ]});
+        }
+    }
+    v
 }
